@@ -797,3 +797,40 @@ package regexp2
 //@   ensures[argerr] (startAt > len(s) || (startAt >= 0 && !OnBoundary(s, startAt))) ==> err != nil
 //@   ensures[found]  err == nil && startAt >= 0 ==> forall k int :: IsRuneIndexOf(s, startAt, k) && k >= 0 ==> ((m != nil) == HasMatchS(re.code, s, k, k))
 //@   ensures[wf]     err == nil && m != nil ==> ReturnedMatch(m, re.code.RightToLeft) && DecodeOf(m.text.runes, s) && m.text.hasStringInput && m.text.input == s
+
+// A prefix filter is only installed for left-to-right programs without \G: its candidate becomes the scan's start
+// offset, which is also the \G origin (this is what makes OriginFree true for filtered programs).
+//@ func newStringPrefixFilter(code *syntax.Code) (f StringPrefixFilter)
+//@   props C02 C03
+//@   modifies *
+//@   ensures[no-G]  f != nil ==> code != nil && !syntax.UsesStart(code)
+//@   ensures[ltr]   f != nil ==> !code.RightToLeft && code.FindOptimizations != nil
+
+//@ func (re *Regexp) matchStringAt(s string, startAt int) (ok bool, err error)
+//@   props C02 C12
+//@   requires RegexpWF(re) && RegexpFacts(re) && re.runnerPool != nil
+//@   callassume scan: FactsHold(re) && (r.code == re.code || r.code == re.quickCode) ==> FinderFacts(r.code, rt, textstart)
+//@   callassume scan: DecodeOf(rt, s) ==> forall o int, p int {Att(re.code, rt, o, p)} :: Att(re.code, rt, o, p) == AttS(re.code, s, o, p)
+//@   modifies re.runnerPool, re.replaceCache, objs(Runner), objs(Match), elems(int), elems([]int), elems(rune), cells([]rune)
+//@   ensures[errfalse] err != nil ==> !ok
+//@   ensures[default]  err == nil && startAt <= 0 ==> (ok == HasMatchS(re.code, s, NormStart(re.code.RightToLeft, -1, RuneCount(s)), NormStart(re.code.RightToLeft, -1, RuneCount(s))))
+//@   ensures[at]       err == nil && startAt > 0 ==> forall k int :: IsRuneIndexOf(s, startAt, k) && k >= 0 ==> (ok == HasMatchS(re.code, s, k, k))
+//@   ensures[inside]   err == nil && startAt > 0 && !OnBoundary(s, startAt) ==> (ok == HasMatchS(re.code, s, 0, 0))
+
+// C02: the boolean string call agrees with the find call: both equal HasMatchS of the same arguments.
+//@ func (re *Regexp) matchString(s string) (ok bool, err error)
+//@   props C02
+//@   requires RegexpWF(re) && RegexpFacts(re) && re.runnerPool != nil
+//@   callassume scan: FactsHold(re) && (r.code == re.code || r.code == re.quickCode) ==> FinderFacts(r.code, rt, textstart)
+//@   callassume scan: DecodeOf(rt, s) ==> forall o int, p int {Att(re.code, rt, o, p)} :: Att(re.code, rt, o, p) == AttS(re.code, s, o, p)
+//@   modifies re.runnerPool, re.replaceCache, objs(Runner), objs(Match), elems(int), elems([]int), elems(rune), cells([]rune)
+//@   ensures[errfalse] err != nil ==> !ok
+//@   ensures[found]    err == nil ==> (ok == HasMatchS(re.code, s, NormStart(re.code.RightToLeft, -1, RuneCount(s)), NormStart(re.code.RightToLeft, -1, RuneCount(s))))
+
+//@ func (re *Regexp) MatchString(s string) (ok bool, err error)
+//@   props C02
+//@   call stringPrefixFilter: spec StringPrefixFilterSpec
+//@   requires RegexpWF(re) && RegexpFacts(re) && OriginFree(re) && re.runnerPool != nil
+//@   modifies re.runnerPool, re.replaceCache, objs(Runner), objs(Match), elems(int), elems([]int), elems(rune), cells([]rune)
+//@   ensures[errfalse] err != nil ==> !ok
+//@   ensures[found]    err == nil ==> (ok == HasMatchS(re.code, s, NormStart(re.code.RightToLeft, -1, RuneCount(s)), NormStart(re.code.RightToLeft, -1, RuneCount(s))))
